@@ -384,8 +384,8 @@ def inverseIn (TR R : ArithTy) (K : Mag) (x : Val) : Res Val :=
     -- the quotient has the type of the division; `static_cast<TargetRep>` converts it
     (divide Rep R k x).bind fun q => staticCast q TR
 
-/-- `constexpr R threshold{1'000'000};` (math.hh:268) — list-initialisation: for an integral `R`
-that cannot hold the literal this is a narrowing conversion and the program is ill-formed
+/-- `constexpr R threshold{1'000'000};` (math.hh:268-272): for an integral `R`
+that cannot hold the literal the static_assert fires and the program is ill-formed
 (`none`); for floating `R` the literal is exactly representable, so it is accepted. -/
 def thresholdOf (R : ArithTy) : Option Val :=
   match R with
